@@ -1,5 +1,6 @@
 import GaleneVerif.Model.DownTrack
 import GaleneVerif.Engine.Common
+import GaleneVerif.Engine.Params
 /-
 Engine `down`: the real rtpDownTrack through the shim (C01, C02, C03, C04).
 Ops:
@@ -50,8 +51,8 @@ structure St where
   cache : Cache.Ring := Cache.new 0
   orc : Orc := {}
 
-def C : Consts := {}
-def P : PacketMap.Params := {}
+def C : Consts := downConsts
+def P : PacketMap.Params := pmParams
 
 def layerS (l : Layer) : String :=
   s!"{l.sid} {l.wantedSid} {l.maxSid} {l.tid} {l.wantedTid} {l.maxTid} {b2s l.limitSid}"
@@ -108,7 +109,7 @@ def parseOut (t : List String) : Bool × List Sent × Bool :=
 
 def below (o : Orc) (u : Nat) : Nat := o.nD - (o.D.takeWhile (· ≥ u)).length
 def expected (o : Orc) (u : Nat) : Nat := (u - below o u) % 65536
-def W : Nat := 8192
+def W : Nat := pmParams.W
 
 def lift (o : Orc) (s : Nat) : Nat × Bool :=
   let n16 := o.U % 65536
@@ -331,7 +332,7 @@ def step (st : St) (op impl : List String) : St × Verdict :=
         let s' := updateRate C st.s loss
         let v := cmp (toString (s'.maxBitrate.getD 0)) impl
         let ov : Option String := match impl.mapM nat? with
-          | some [r] => if r < 9600 || r > 1073741824 then some s!"C04: loss-based ceiling {r} outside [9600, 2^30]" else none
+          | some [r] => if r < C.minLossRate || r > C.maxLossRate then some s!"C04: loss-based ceiling {r} outside [{C.minLossRate}, {C.maxLossRate}]" else none
           | _ => some "bad updaterate result"
         ({ st with s := s' }, match ov with | some m => .oracle m | none => v)
       | none => (st, .badop "updaterate")
